@@ -383,6 +383,10 @@ func genOp(c chooser, r *opsRun) Op {
 		case "setcode":
 			o.A = c.Int(0, len(opAddrs)-1, "a")
 			o.V = pick(c, opCodes, "code")
+			if o.V == "e29bbc" && r.ex.on(exCodeMarker) {
+				r.ex.hit(exCodeMarker)
+				o.V = "e29bbd"
+			}
 		case "setstate":
 			o.A = c.Int(0, len(opAddrs)-1, "a")
 			o.S = c.Int(0, len(opSlots)-1, "s")
